@@ -681,6 +681,23 @@ let run_tmpl (_dump : Stdlib.String.t list) (hist : Stdlib.String.t) (out : Buff
   | Model_panic s -> Buffer.add_string out (Printf.sprintf "PANIC tmpl: %s\n" s)
   | Model_fuel -> Buffer.add_string out "PANIC tmpl: OUT-OF-FUEL\n")
 
+
+(* ---------- C15: reload decision functions, one query per line on stdin ---------- *)
+let rld_main () =
+  (try
+    while true do
+      let line = input_line stdin in
+      match List.filter (fun s -> s <> "") (String.split_on_char ' ' line) with
+      | ["DUE"; r; ku; tsi] ->
+        let b = reload_due (r = "1") (ku = "1") (n_of_int (int_of_string tsi)) in
+        Printf.printf "DUE %d\n" (if b then 1 else 0)
+      | ["IDX"; a; m; i; n] ->
+        let act = (match a with "same" -> RlSame | "next" -> RlNext | "prev" -> RlPrev | _ -> RlNum (n_of_int (int_of_string m))) in
+        Printf.printf "IDX %d\n" (int_of_n (next_index act (n_of_int (int_of_string i)) (n_of_int (int_of_string n))))
+      | _ -> print_endline "?"
+    done
+  with End_of_file -> ())
+
 (* ---------- C11 key tables ---------- *)
 let hex_decode (h : Stdlib.String.t) : Stdlib.String.t =
   String.init (String.length h / 2) (fun i -> Char.chr (int_of_string ("0x" ^ String.sub h (2 * i) 2)))
@@ -720,5 +737,7 @@ let () =
   | _ :: "sx" :: path :: _ -> sim_main run_sx path
   | _ :: "tmpl" :: path :: _ -> sim_main run_tmpl path
   | _ :: "keys" :: _ -> keys_main ()
+  | _ :: "rld" :: _ -> rld_main ()
+  | _ :: "rsim" :: _ -> ()
   | _ :: "swev" :: path :: _ -> swev_main path
   | _ -> prerr_endline "usage: driver <lsim FILE|keys>"; exit 2
